@@ -549,6 +549,77 @@ fn main() {
             Ok(l) => println!("sqlite-asyncstd {l}"),
             Err(e) => println!("sqlite-asyncstd error {e} ok=0"),
         }
+        // second history: the panic arrives *inside* get(). A closure that is still running when
+        // its interaction is abandoned panics while the next get() is already waiting for the
+        // connection's mutex in `Manager::recycle`; under async-std that get() ends in the panic.
+        // Whatever it ends in, the dead connection must be off the books: the pool (max_size 1)
+        // must afterwards hand out a connection, take it back and hand one out again. (If the
+        // machine is so slow that the closure panics before the get() waits, the poison pre-check
+        // rejects the connection instead - same expected outcome.)
+        let run_late = || -> Result<String, String> {
+            use std::panic::{catch_unwind, AssertUnwindSafe};
+            let mut cfg = deadpool_sqlite::Config::new(":memory:");
+            cfg.pool = Some(deadpool_sqlite::PoolConfig::new(1));
+            let pool = cfg.create_pool(deadpool_sqlite::Runtime::AsyncStd1).map_err(|e| format!("create_pool:{e}"))?;
+            let c = async_std::task::block_on(pool.get()).map_err(|e| format!("first get:{e}"))?;
+            let (go_tx, go_rx) = std::sync::mpsc::channel::<()>();
+            let (started_tx, started_rx) = std::sync::mpsc::channel::<()>();
+            // abandoned while the closure runs
+            let _ = catch_unwind(AssertUnwindSafe(|| {
+                async_std::task::block_on(async {
+                    let fut = c.interact(move |_| {
+                        let _ = started_tx.send(());
+                        let _ = go_rx.recv_timeout(Duration::from_secs(20));
+                        std::panic::panic_any("scripted panic")
+                    });
+                    let _ = async_std::future::timeout(Duration::from_millis(50), fut).await;
+                })
+            }));
+            started_rx.recv_timeout(Duration::from_secs(10)).map_err(|_| "closure did not start".to_string())?;
+            drop(c);
+            let p2 = pool.clone();
+            let h = std::thread::spawn(move || {
+                catch_unwind(AssertUnwindSafe(|| async_std::task::block_on(p2.get()).map(|_| ()).map_err(|e| e.to_string())))
+            });
+            std::thread::sleep(Duration::from_millis(400));
+            let _ = go_tx.send(());
+            let get2 = match h.join() {
+                Ok(Ok(Ok(()))) => "ok".to_string(),
+                Ok(Ok(Err(e))) => format!("err:{e}"),
+                _ => "panicked".to_string(),
+            };
+            let serve = |what: &str| -> Result<(), String> {
+                let r = catch_unwind(AssertUnwindSafe(|| {
+                    async_std::task::block_on(async_std::future::timeout(Duration::from_secs(10), pool.get()))
+                }));
+                match r {
+                    Ok(Ok(Ok(c))) => {
+                        let v = catch_unwind(AssertUnwindSafe(|| {
+                            async_std::task::block_on(c.interact(|conn| conn.query_row("SELECT 1", [], |r| r.get::<_, i64>(0))))
+                        }));
+                        if !matches!(v, Ok(Ok(Ok(1)))) {
+                            return Err(format!("{what}: connection not usable"));
+                        }
+                        Ok(())
+                    }
+                    Ok(Ok(Err(e))) => Err(format!("{what}: {e}")),
+                    Ok(Err(_)) => Err(format!("{what}: no connection within 10 s, status {:?}", pool.status())),
+                    Err(_) => Err(format!("{what}: panicked")),
+                }
+            };
+            if let Err(e) = serve("get after the panic").and_then(|_| serve("second get after the panic")) {
+                return Ok(format!("late get2={get2} {e} ok=0"));
+            }
+            let st = pool.status();
+            if st.size > st.max_size {
+                return Ok(format!("late get2={get2} status {:?} ok=0", st));
+            }
+            Ok(format!("late get2={get2} served=2 size={} ok=1", st.size))
+        };
+        match run_late() {
+            Ok(l) => println!("sqlite-asyncstd {l}"),
+            Err(e) => println!("sqlite-asyncstd late error {e} ok=0"),
+        }
         return;
     }
     if mode != "diff" {
